@@ -77,7 +77,7 @@ FINAL_KEYS = {"matched": "", "matched_reg": "", "used": False, "want_n": 0, "fwd
               "covert_conns": 0, "to_peer": 0, "unread": 0}
 
 
-def run_cases(ctx, worlds_cases, par=300, timeout=3000):
+def run_cases(ctx, worlds_cases, par=300, timeout=3000, epoch_ms=0):
     """worlds_cases: list of (world, [cases]).  Returns list of (world, case, record)."""
     inp = os.path.join(ctx.scratch, "classify_in_%d.ndjson" % len(os.listdir(ctx.scratch)))
     outp = inp.replace("_in_", "_out_")
@@ -90,7 +90,7 @@ def run_cases(ctx, worlds_cases, par=300, timeout=3000):
                     raise vlib.InfraError("duplicate case id " + c["id"])
                 idx[c["id"]] = (w, c)
                 f.write(json.dumps(c) + "\n")
-    res = ctx.go_test(PKG, FILES, "main", "^TestVerifClassify$", env={"VERIF_IN": inp, "VERIF_OUT": outp, "VERIF_PAR": par},
+    res = ctx.go_test(PKG, FILES, "main", "^TestVerifClassify$", env={"VERIF_IN": inp, "VERIF_OUT": outp, "VERIF_PAR": par, "VERIF_EPOCH_MS": epoch_ms},
                       extra_overlays=BRIDGE, timeout=timeout)
     try:
         rows = ctx.read_results(outp)
@@ -104,6 +104,8 @@ def run_cases(ctx, worlds_cases, par=300, timeout=3000):
     cs = [r for r in rows if r.get("kind") == "connstats"]
     tot = {"cases": 0, "found": 0}
     for c in cs:
+        if c.get("rollovers"):
+            continue    # epochs rolled over while connections were open: a reset drops the in-flight gauges (extension X04, D4) - no balance to judge
         n = c["cases"]
         tot["cases"] += n
         tot["found"] += c["outcomes"]["found"]
@@ -117,7 +119,7 @@ def run_cases(ctx, worlds_cases, par=300, timeout=3000):
         for pr in problems:
             ctx.violation("connstats:%s" % pr.split(":")[0].split("=")[0].replace(" ", "-"),
                           "connection statistics do not balance after a batch of %d connections: %s" % (n, pr), c)
-    if cs and tot["found"] != matched_total:
+    if cs and not any(c.get("rollovers") for c in cs) and tot["found"] != matched_total:
         ctx.violation("connstats:found-count", "statistics count %d found connections, %d were matched" % (tot["found"], matched_total), {"stats": cs})
     ctx.stage("C", connstats_batches=len(cs))
     # application data too short to identify its covert connection (< 8 bytes) and carried by several cases: exactly as many
